@@ -14,7 +14,7 @@ func init() {
 	register(&Rule{ID: "E-TYPECHECK", Props: []string{"C02", "C13", "C08"}, Floor: 100,
 		Doc: "in every built-in helper that can fail (results (T, error)), the ok of every comma-ok type assertion and of every toDecimal call is tested, and the failure edge cannot reach a success return before another type test: every return reached first carries *InvalidTypeError (or the error type the table names for that helper); helpers for which the specification turns a mismatch into null/false are listed one by one",
 		Run: ruleETypeCheck})
-	register(&Rule{ID: "E-TOINT", Props: []string{"C02", "C08", "C14"}, Floor: 10,
+	register(&Rule{ID: "E-TOINT", Props: []string{"C02", "C08", "C14"}, Floor: 6,
 		Doc: "at every call of the integer coercion toInt the failure edge (!ok) only reaches error returns: *InvalidTypeError when the value is not a number, *integerConversionError (invalid-value) when it is a number that is not an integer in range; no path continues with the zero result",
 		Run: ruleEToInt})
 	register(&Rule{ID: "E-NEGCOUNT", Props: []string{"C02", "C09", "C03"}, Floor: 10,
@@ -93,9 +93,48 @@ func hasTypeTest(b *ssa.BasicBlock) bool {
 			if cf := calleeOf(&x.Call); cf != nil && (isRole(cf, "toDecimal") || isRole(cf, "toInt") || isRole(cf, "toFloat") || isRole(cf, "toFloatPair")) {
 				return true
 			}
+			// a library search over the elements with a type-testing predicate (slices.IndexFunc(a, isNotString))
+			for _, arg := range x.Call.Args {
+				var pf *ssa.Function
+				switch f := arg.(type) {
+				case *ssa.Function:
+					pf = f
+				case *ssa.MakeClosure:
+					pf, _ = f.Fn.(*ssa.Function)
+				}
+				if pf != nil && len(pf.Blocks) > 0 && pf.Signature.Results().Len() == 1 && isBoolType(pf.Signature.Results().At(0).Type()) {
+					for _, pb := range pf.Blocks {
+						for _, pin := range pb.Instrs {
+							switch y := pin.(type) {
+							case *ssa.TypeAssert:
+								return true
+							case *ssa.Call:
+								if cf := calleeOf(&y.Call); cf != nil && (isRole(cf, "toDecimal") || isRole(cf, "toInt") || isRole(cf, "toFloat")) {
+									return true
+								}
+							}
+						}
+					}
+				}
+			}
 		}
 	}
 	return false
+}
+
+// ownMapLookup: v is looked up in a map this function allocated itself (its contents are the function's own values).
+func ownMapLookup(v ssa.Value) bool {
+	lk, ok := v.(*ssa.Lookup)
+	if !ok {
+		if ex, isEx := v.(*ssa.Extract); isEx {
+			lk, ok = ex.Tuple.(*ssa.Lookup)
+		}
+		if !ok {
+			return false
+		}
+	}
+	_, isMake := lk.X.(*ssa.MakeMap)
+	return isMake
 }
 
 func errTypeOf(v ssa.Value) string {
@@ -130,6 +169,10 @@ func ruleETypeCheck(p *Program, r *Reporter) {
 		for _, tt := range typeTestsOf(fn) {
 			n++
 			key := fmt.Sprintf("%s test#%d %s%s", name, n, describeAddr(tt.src), tt.what)
+			if ownMapLookup(tt.src) {
+				r.Trivial(tt.at.Pos(), key, "asserts the type of a value this function stored itself in a map it allocated")
+				continue
+			}
 			if tt.ok == nil {
 				if isExempt {
 					r.Trivial(tt.at.Pos(), key, "exempt: "+exempt)
@@ -224,86 +267,142 @@ func allowedMismatchError(fn, errType string) bool {
 }
 
 func ruleEToInt(p *Program, r *Reporter) {
-	toInt := numericRoles(p).toInt
+	nr := numericRoles(p)
+	toInt := nr.toInt
 	if toInt == nil {
-		r.Unknown(token.NoPos, "toInt", "integer coercion helper func(any) (int, bool, ...) not found: "+numericRoles(p).why)
+		r.Unknown(token.NoPos, "toInt", "integer coercion helper func(any) (int, bool, ...) not found: "+nr.why)
 		return
 	}
 	for _, fn := range p.ReachFuncs(p.Eval) {
+		if fn.Parent() != nil || fn == toInt {
+			continue
+		}
+		calls := 0
+		for _, c := range staticCallees(fn) {
+			if c == toInt {
+				calls++
+			}
+		}
+		if calls == 0 {
+			continue
+		}
 		name := p.FuncName(fn)
-		n := 0
-		for _, b := range fn.Blocks {
-			for _, in := range b.Instrs {
-				c, ok := in.(*ssa.Call)
-				if !ok || calleeOf(&c.Call) != toInt {
-					continue
-				}
-				n++
-				key := fmt.Sprintf("%s toInt(%s)#%d", name, describeAddr(c.Call.Args[0]), n)
-				okv, isNum, iv := extractOf(c, 2), extractOf(c, 1), extractOf(c, 0)
-				if iv == nil && okv == nil {
-					// pure type probe: `_, isNum, _ := toInt(x)`
-					r.Trivial(c.Pos(), key, "used only to classify the argument as a number")
-					continue
-				}
-				if okv == nil {
-					r.Bad(instrPos(c), key, "the ok result of the integer coercion is discarded: non-integral or out-of-range numbers are silently used as 0")
-					continue
-				}
-				var iff *ssa.If
-				for _, ref := range *okv.Referrers() {
-					if i, ok := ref.(*ssa.If); ok {
-						iff = i
-					}
-				}
-				if iff == nil {
-					r.Bad(instrPos(c), key, "the ok result of the integer coercion never decides a branch")
-					continue
-				}
-				fail := iff.Block().Succs[1]
-				bad := ""
-				seen := map[*ssa.BasicBlock]bool{}
-				var walk func(b *ssa.BasicBlock)
-				walk = func(b *ssa.BasicBlock) {
-					if seen[b] || bad != "" {
-						return
-					}
-					seen[b] = true
-					if len(b.Instrs) > 0 {
-						if ret, ok := b.Instrs[len(b.Instrs)-1].(*ssa.Return); ok {
-							et := errTypeOf(ret.Results[len(ret.Results)-1])
-							notNum := isNum != nil && boolFact(b, isNum, false)
-							isN := isNum != nil && boolFact(b, isNum, true)
-							switch {
-							case et == "nil":
-								bad = "the failure edge of the coercion reaches a success return at " + p.Pos(ret.Pos())
-							case notNum && et != "*evaluator.InvalidTypeError":
-								bad = "a non-number argument is reported as " + et + " instead of invalid-type at " + p.Pos(ret.Pos())
-							case isN && et != "*evaluator.integerConversionError" && et != "*evaluator.InvalidTypeError":
-								bad = "a non-integral number is reported as " + et + " at " + p.Pos(ret.Pos())
-							case isN && et == "*evaluator.InvalidTypeError" && !reportsOtherValue(ret, c.Call.Args[0]) && !underFailedToDecimal(b, c.Call.Args[0]):
-								bad = "a number that is not an integer is reported as invalid-type instead of invalid-value at " + p.Pos(ret.Pos())
-							}
-							return
-						}
-					}
-					for _, s := range b.Succs {
-						walk(s)
-					}
-				}
-				walk(fail)
-				if bad != "" {
-					r.Bad(instrPos(c), key, bad)
-				} else {
-					r.OK(c.Pos(), key, "failure edge: non-number → *InvalidTypeError, non-integer → *integerConversionError; no path continues")
+		// pure probes (`_, isNum, _ := toInt(x)`) carry no obligation
+		res := fn.Signature.Results()
+		if res.Len() == 0 || !isErrorType(res.At(res.Len()-1).Type()) {
+			r.Trivial(fn.Pos(), name+" integer arguments", "uses the integer coercion only to classify a value (no error result)")
+			continue
+		}
+		nd := &numDom{p: p}
+		e := newEngine(p, nd)
+		nd.e = e
+		e.MaxVisits = 2
+		e.MaxPaths = 30000
+		st := newState()
+		args := make([]AV, len(fn.Params))
+		for i := range args {
+			args[i] = avSym{id: e.fresh(), tag: fmt.Sprintf("arg%d", i)}
+		}
+		outs := e.Run(fn, args, st)
+		key := name + " integer arguments"
+		if e.Aborted != "" {
+			r.Unknown(fn.Pos(), key, "path enumeration aborted: "+e.Aborted)
+			continue
+		}
+		bad := ""
+		var badPos token.Pos
+		nFail := 0
+		for _, o := range outs {
+			if o.Panic || o.Cut || bad != "" {
+				continue
+			}
+			// the first failed integer coercion on the path
+			var fail *Event
+			var laterDecFail bool
+			for k := range o.St.Trace {
+				ev := &o.St.Trace[k]
+				if ev.Kind == "coerce-failed" && ev.Fn == toInt && fail == nil {
+					fail = ev
+				} else if ev.Kind == "coerce-failed" && fail != nil && isRole(ev.Fn, "toDecimal") && len(ev.Args) > 0 && len(fail.Args) > 0 && avKey(ev.Args[0]) == avKey(fail.Args[0]) {
+					laterDecFail = true
 				}
 			}
+			if fail == nil || len(fail.Res) < 2 {
+				continue
+			}
+			nFail++
+			isnum := fail.Res[1]
+			decided, truth := false, false
+			if len(fail.Res) > 2 || true {
+				for _, c := range o.St.Conds {
+					if avKey(c.V) == avKey(isnum) {
+						decided, truth = true, c.Truth
+					}
+					if n, ok := c.V.(avNot); ok && avKey(n.x) == avKey(isnum) {
+						decided, truth = true, !c.Truth
+					}
+				}
+			}
+			// was the failure flag consulted at all?
+			okConsulted := false
+			for _, ev := range o.St.Trace {
+				_ = ev
+			}
+			_ = okConsulted
+			last := o.Res[len(o.Res)-1]
+			et := dynName(last)
+			pos := o.Ret.Pos()
+			arg := nd.render(fail.Args[0])
+			switch {
+			case isDefNil(last):
+				bad = "a path continues to a success return after the integer coercion of " + arg + " failed"
+			case et == "":
+				// error produced by something the interpreter does not see through: accept only known sentinel
+				continue
+			case decided && !truth && et != "InvalidTypeError":
+				bad = "a non-number argument " + arg + " is reported as " + et + " instead of invalid-type"
+			case decided && truth && laterDecFail:
+				continue // defensive re-check of a value already known to be a number: infeasible
+			case decided && truth && et == "InvalidTypeError" && reportsAnotherValue(o.St, last, fail.Args[0]):
+				continue // the type error of another argument takes precedence over this argument's value error
+			case decided && truth && et != "integerConversionError":
+				bad = "a number " + arg + " that is not an integer is reported as " + et + " instead of the integer-conversion (invalid-value) error"
+			case !decided && et != "InvalidTypeError" && et != "integerConversionError":
+				bad = "a failed integer coercion of " + arg + " is reported as " + et
+			case !decided && !laterDecFail && et == "InvalidTypeError" && len(toInt.Signature.Results().At(1).Name()) >= 0 && resultsHaveIsNum(toInt):
+				bad = "non-numbers and non-integral numbers are not told apart for " + arg + ": both are reported as invalid-type"
+			}
+			if bad != "" {
+				badPos = pos
+			}
+		}
+		switch {
+		case bad != "":
+			r.Bad(badPos, key, bad)
+		case nFail == 0:
+			r.Bad(fn.Pos(), key, "no path handles a failed integer coercion")
+		default:
+			r.OK(fn.Pos(), key, fmt.Sprintf("%d failing paths: non-number -> InvalidTypeError, non-integer -> integerConversionError; none continues", nFail))
 		}
 	}
 }
 
-// reportsOtherValue: the InvalidTypeError returned describes a different argument than the coerced one
-// (find_*: when start is a non-integral number, a non-number finish is still reported first).
+// reportsAnotherValue: the error value describes (reflect.TypeOf) a value other than v.
+func reportsAnotherValue(st *State, errv AV, v AV) bool {
+	for _, f := range st.fieldsOf(errv) {
+		sy, ok := f.(avSym)
+		if !ok || !strings.Contains(sy.tag, "TypeOf") {
+			continue
+		}
+		if t, ok := sy.payload.(avTuple); ok && len(t) == 1 && avKey(t[0]) != avKey(v) {
+			return true
+		}
+	}
+	return false
+}
+
+func resultsHaveIsNum(toInt *ssa.Function) bool { return toInt.Signature.Results().Len() >= 3 }
+
 func reportsOtherValue(ret *ssa.Return, coerced ssa.Value) bool {
 	mi, ok := ret.Results[len(ret.Results)-1].(*ssa.MakeInterface)
 	if !ok {
